@@ -307,6 +307,12 @@ def adopt_region(st, old, new):
             st.arr[(new, key[1])] = st.arr.pop(key)
     if old in st.length:
         st.length[new] = st.length.pop(old)
+    # every other pointer into the region (a local that received the allocation first, a second member aliasing it) keeps
+    # pointing to the same memory under its new name
+    for tab in (st.env, st.scal):
+        for k_, v_ in list(tab.items()):
+            if isinstance(v_, PtrV) and v_.region == old:
+                tab[k_] = PtrV(new, v_.off, v_.ct, getattr(v_, 'path', None))
 
 
 def run_inits(ex, st, inits, contract):
